@@ -249,6 +249,20 @@ def main(argv):
     if failed_thms and not ok_build:
         failed_thms = [failed_thms[0] + " (coq build: " + bout[-600:] + ")"]
     ok_build = True
+    # thorough tier: re-check the compiled theorems and everything they depend on with the
+    # independent checker and record the axioms it reports
+    coqchk = None
+    if tier == "thorough" and not failed_thms:
+        mod = "CSS." + cfg.get("props_file", "Props/%s.v" % pid)[:-2].replace("/", ".")
+        try:
+            rc, out = sh(["coqchk", "-silent", "-o", "-Q", COQ, "CSS", mod], cwd=COQ, timeout=cfg.get("coqchk_timeout_s", 2400))
+            m = re.search(r"\* Axioms:(.*?)\n\s*\n\* Constants", out, re.S)
+            coqchk = {"module": mod, "exit": rc, "axioms": " ".join(m.group(1).split()) if m else "?", "tail": out[-400:]}
+            if rc != 0:
+                failed_thms.append("coqchk rejects %s: %s" % (mod, out[-400:]))
+        except subprocess.TimeoutExpired:
+            coqchk = {"module": mod, "exit": "timeout"}
+        log.append(("coqchk", coqchk.get("exit"), str(coqchk)))
     # 2. translator tie
     n_gen, gen_failed, gen_info = (0, [], {})
     if ok_build:
@@ -383,6 +397,8 @@ def main(argv):
         "extra": rep.get("extra", {}) if rep else {},
         "explanation": cfg.get("explanation", ""),
     }
+    if coqchk:
+        cov["coqchk"] = coqchk
     if gen_info:
         cov["translator"] = {k: v[-600:] for k, v in gen_info.items()}
     ev = {
